@@ -1045,21 +1045,31 @@ Section World.
     match ops with
     | [] => True
     | DInflow a c :: t => books_after_every_block (dist_inflow w a c) t
+    | DSetSubs subs :: t => books_after_every_block (dist_set_subs w subs) t
     | DBlock faults :: t =>
         match dist_begin_block w faults with
         | Ok (w', _, _) => Books w' /\ books_after_every_block w' t
         | _ => False
         end
     end.
-  Definition good_op (o : dop) : Prop := match o with DInflow _ c => good_inflow c | DBlock _ => True end.
+  (* a parameter update is good when the new configuration is one the invariant admits: well-formed, its destinations among
+     the known accounts, and every sub-distributor's input consumed by a later one (booked_after) *)
+  Definition good_subs (subs : list subdist) : Prop :=
+    cfg_ok subs /\ Forall (dests_in Known) subs /\ booked_after false subs = true.
+  Definition good_op (o : dop) : Prop :=
+    match o with DInflow _ c => good_inflow c | DBlock _ => True | DSetSubs subs => good_subs subs end.
+
+  Lemma set_subs_keeps_winv w subs : winv w -> cfg_ok subs -> Forall (dests_in Known) subs -> winv (dist_set_subs w subs).
+  Proof. intros [A B C D0 E F G H] Hc Hd. constructor; cbn [dist_set_subs dw_states dw_subs dw_bal dw_burned dw_burnkey]; assumption. Qed.
 
   Theorem history_keeps_books ops : forall w,
     winv w -> booked_after false (dw_subs w) = true -> Forall good_op ops -> books_after_every_block w ops.
   Proof.
     induction ops as [|o t IH]; intros w Hw Hb Hg; [exact I|]. inversion Hg as [|? ? Ho Ht]; subst.
-    destruct o as [a c|faults]; cbn [books_after_every_block].
+    destruct o as [a c|faults|subs]; cbn [books_after_every_block].
     - apply IH; [apply inflow_keeps_winv; assumption | exact Hb | exact Ht].
     - destruct (block_keeps_books w faults Hw) as (w' & evs & n & E & Hw' & Hsubs & Hbooks). rewrite E.
       split; [apply Hbooks; exact Hb|]. apply IH; [exact Hw' | rewrite Hsubs; exact Hb | exact Ht].
+    - destruct Ho as (Hc & Hd & Hb'). apply IH; [apply set_subs_keeps_winv; assumption | exact Hb' | exact Ht].
   Qed.
 End World.
